@@ -100,6 +100,31 @@ def gen_cases(rng, tier):
             pts.reverse()
         ops = [0, f2b(round(pts[0][0], 2)), f2b(round(pts[0][1], 2)), n - 1] + [f2b(round(v, 2)) for p in pts[1:] for v in p]
         cases.append(("hair_px", [rng.randrange(3), i % 2, 0, w, h, 1 if w <= 40 else 0] + list(IDENT) + ops))
+    # segments whose deltas are exactly / almost 512 px (the longest segment the anti-aliased hairline draws in one piece;
+    # FDot6 32768 does not fit the 16-bit fast division), drawn directly, produced by the pre-clip of a longer line
+    # through the corners of a 510 x 510 pixmap, and as halves of 1024-px lines
+    for i in range(8 if tier == "quick" else 96):
+        kind = i % 4
+        d = 512 + rng.choice([0, 0, 0, -1 / 64.0, 1 / 64.0])
+        sx, sy = rng.choice([(1, 1), (1, 1), (1, -1), (-1, 1), (-1, -1)])
+        if kind == 0:
+            w = h = 512
+            pts = [(0, 0), (512, 512)] if sx * sy > 0 else [(512, 0), (0, 512)]
+        elif kind == 1:
+            w = h = 510
+            far = rng.choice([1, 40, 1e3, 1e6])
+            pts = [(-far, -far), (510 + far, 510 + far)] if sx * sy > 0 else [(510 + far, -far), (-far, 510 + far)]
+        elif kind == 2:
+            w = h = 560
+            x0, y0 = rng.randint(2, 40), rng.randint(2, 40)
+            ax, ay = (x0 if sx > 0 else x0 + d), (y0 if sy > 0 else y0 + d)
+            pts = [(ax, ay), (ax + sx * d, ay + sy * d * rng.choice([1, 1, 0.75]))]
+        else:
+            w, h = 1100, 1100
+            pts = [(30, 40), (30 + 1024, 40 + 1024)] if sx * sy > 0 else [(30 + 1024, 40), (30, 40 + 1024)]
+        if rng.random() < 0.5:
+            pts.reverse()
+        cases.append(("hair_px", [rng.randrange(3), 1 if i % 8 < 6 else 0, 0, w, h, 0] + list(IDENT) + poly_ops(pts, close=False, grid=64.0)))
     # large cubics with lopsided control polygons (the subdivision count must follow the larger deviation)
     for i in range(24 if tier == "quick" else 400):
         w, h = rng.choice([(200, 120), (160, 160), (120, 200)])
@@ -137,6 +162,8 @@ def oracle(suite, args, out):
             return "%d path points inside the pixmap have no touched pixel nearby: gap (first near (%d,%d))" % (o[2], o[3], o[4])
         if o[6] > 0:
             return "%d pixels inside the pixmap depend on how the path continues outside it" % o[6]
+        if len(o) >= 9 and o[8] > 0:
+            return "%d anti-aliased pixels inside the pixmap change coverage by 96 or more depending on how the path continues outside it" % o[8]
         if len(o) >= 8 and o[7] > 0:
             return "EDGEFOLD: %d anti-aliased hairline pixels in the first rows/columns are far from the path" % o[7]
     return None
